@@ -107,36 +107,45 @@ Proof.
   apply in_seq. lia.
 Qed.
 
+Lemma exch_ok_eq name args rp r v :
+  is_supported name = true -> exch_ok name args rp r v = true -> exch_eqb (one_exchange name args rp) r v = true.
+Proof. unfold exch_ok. intros ->. exact (fun H => H). Qed.
+
 (* a write followed by the matching read, factorised (see the head of this file) *)
 Lemma write_then_read wname rname wargs rargs s s1 wreq rreq wrp rrp wv v :
-  exch_eqb (one_exchange wname wargs wrp) wreq wv = true ->
+  is_supported wname = true -> is_supported rname = true ->
+  exch_ok wname wargs wrp wreq wv = true ->
   bmc_handle s wreq = (s1, wrp) ->
-  exch_eqb (one_exchange rname rargs rrp) rreq v = true ->
+  exch_ok rname rargs rrp rreq v = true ->
   bmc_handle s1 rreq = (s1, rrp) ->
   exists r1 r2, call wname wargs s = (r1, s1) /\ same r1 wv /\
                 call rname rargs s1 = (r2, s1) /\ same r2 v.
 Proof.
-  intros W BW R BR.
+  intros Sw Sr W BW R BR. apply (exch_ok_eq _ _ _ _ _ Sw) in W. apply (exch_ok_eq _ _ _ _ _ Sr) in R.
   apply exch_eqb_eq in W as (wr & r1 & W & Wq & Wv). apply request_eqb_eq in Wq. subst wr.
   apply exch_eqb_eq in R as (rr & r2 & R & Rq & Rv). apply request_eqb_eq in Rq. subst rr.
   exists r1, r2. rewrite (call_one _ _ _ _ _ _ _ W BW), (call_one _ _ _ _ _ _ _ R BR). auto.
 Qed.
 
 Lemma read_only rname rargs s rreq rrp v :
-  exch_eqb (one_exchange rname rargs rrp) rreq v = true ->
+  is_supported rname = true ->
+  exch_ok rname rargs rrp rreq v = true ->
   bmc_handle s rreq = (s, rrp) ->
   exists r, call rname rargs s = (r, s) /\ same r v.
 Proof.
-  intros R BR. apply exch_eqb_eq in R as (rr & r2 & R & Rq & Rv). apply request_eqb_eq in Rq. subst rr.
+  intros Sr R BR. apply (exch_ok_eq _ _ _ _ _ Sr) in R.
+  apply exch_eqb_eq in R as (rr & r2 & R & Rq & Rv). apply request_eqb_eq in Rq. subst rr.
   exists r2. rewrite (call_one _ _ _ _ _ _ _ R BR). auto.
 Qed.
 
 Lemma write_only wname wargs s s' wreq wrp wv :
-  exch_eqb (one_exchange wname wargs wrp) wreq wv = true ->
+  is_supported wname = true ->
+  exch_ok wname wargs wrp wreq wv = true ->
   bmc_handle s wreq = (s', wrp) ->
   exists r1, call wname wargs s = (r1, s') /\ same r1 wv.
 Proof.
-  intros W BW. apply exch_eqb_eq in W as (wr & r1 & W & Wq & Wv). apply request_eqb_eq in Wq. subst wr.
+  intros Sw W BW. apply (exch_ok_eq _ _ _ _ _ Sw) in W.
+  apply exch_eqb_eq in W as (wr & r1 & W & Wq & Wv). apply request_eqb_eq in Wq. subst wr.
   exists r1. rewrite (call_one _ _ _ _ _ _ _ W BW). auto.
 Qed.
 
